@@ -272,11 +272,12 @@ pub trait TooDeeOpsMut<T> : TooDeeOps<T> + IndexMut<usize,Output=[T]>  + IndexMu
     /// assert_eq!(toodee[(0, 2)], 1);
     /// ```
     fn swap_rows(&mut self, mut r1: usize, mut r2: usize) {
-        if r1 == r2 {
-            return;
-        }
         if r2 < r1 {
             mem::swap(&mut r1, &mut r2);
+        }
+        assert!(r2 < self.num_rows());
+        if r1 == r2 {
+            return;
         }
         let mut iter = self.rows_mut();
         let tmp = iter.nth(r1).unwrap();
